@@ -5,7 +5,7 @@ from datetime import datetime, timedelta
 import common
 from common import Outcome, classify_exc
 
-STRS = ['plain', 'a;b', 'say "hi"', 'line\nbreak', 'cr\rlf\r\n', '', ' lead', 'trail ', 'ünï', ';', '"', '""', 'x\ty', "'q'", 'a,b', '﻿bom', 'Design\u2028review', 'print\x0cshop', 'v\x0bt', 'nel\x85x', 'ps\u2029', 'fs\x1cgs\x1drs\x1e', 'NaN', 'null']
+STRS = ['plain', 'a;b', 'say "hi"', 'line\nbreak', 'cr\rlf\r\n', '', ' lead', 'trail ', 'ünï', ';', '"', '""', 'x\ty', "'q'", 'a,b', '﻿bom', 'Design\u2028review', 'print\x0cshop', 'v\x0bt', 'nel\x85x', 'ps\u2029', 'fs\x1cgs\x1drs\x1e', 'NaN', 'null', 'old\rmac', 'tail\r']
 BASE = datetime(2024, 1, 1)
 
 
